@@ -233,10 +233,11 @@ func (s *c10Store) dump() []interface{} {
 	return out
 }
 
-// exec runs one operation with a watchdog: an operation that does not return within
+// exec runs one operation with a watchdog. An operation that does not return within
 // c10OpTimeout is reported as {"hang":true} and the store is abandoned (its goroutine cannot be
-// killed; the caller must stop using this process for further cases).
-const c10OpTimeout = 20 * time.Second
+// killed; generation stops). The timeout is generous because the shared machine can stall a
+// healthy Badger operation for tens of seconds (a 20 s limit produced a false "hang").
+const c10OpTimeout = 120 * time.Second
 
 func (s *c10Store) exec(op c10M) c10M {
 	if s.hung {
@@ -595,7 +596,7 @@ func c10Generate(r *Run) {
 				o := emit(op)
 				text += fmt.Sprint(op)
 				if o["hang"] == true {
-					r.Notes = append(r.Notes, fmt.Sprintf("operation did not return within %v on %s: %v; generation stopped", c10OpTimeout, d, op))
+					r.Notes = append(r.Notes, fmt.Sprintf("operation did not return (watchdog %v) on %s: %v; generation stopped", c10OpTimeout, d, op))
 					return
 				}
 				if o["panic"] == true {
